@@ -18,9 +18,9 @@ def instrument(i, nfl=2):
     return dict(id='INST%d' % (i + 1), fsc='FSC' + suf, ssc='SSC' + suf, fl=fl, time='Time' if i % 2 == 0 else 'TIME')
 
 
-def bead_layout(inst, stream=0, container='int', n_events=120, n_pop=6, few=False, voltage_shift=0, linear_fl=False, res=None):
+def bead_layout(inst, stream=0, container='int', n_events=120, n_pop=6, few=False, voltage_shift=0, linear_fl=False, res=None, flat_channels=()):
     spec = dict(n_pop=n_pop, ratio=3.0, cv=0.03, n_events=n_events, laws=(BEAD_LAWS * 4)[:len(inst['fl'])], blank=False, saturated=None,
-                container=container, stream=stream, order='shuffled', lead=250, trail=100, names=inst['fl'], res=res)
+                container=container, stream=stream, order='shuffled', lead=250, trail=100, names=inst['fl'], res=res, flat_channels=tuple(flat_channels))
     if few:
         spec.update(n_events=20, lead=100, trail=50)
     lay, truth = beadsgen.bead_sample(spec)
